@@ -128,7 +128,7 @@ def check_tree(ctx, focus, t, score, s, cats, roots, binary, unary, adm, pen, wh
     """Tree-level oracles: C02 (licensed), C09 (score), C12 (labels of the very result)"""
     leaves = t.leaves
     data = {'where': where, 'tree': auto_str(t)}
-    if focus in ('c02', 'c12'):
+    if focus in ('c02', 'c12', 'c16'):
         if len(leaves) != len(s.tokens) or any(l.token is not tok for l, tok in zip(leaves, s.tokens)):
             ctx.fail('leaves_not_tokens', f'{where}: leaves do not carry the input tokens in order', data)
         for i, l in enumerate(leaves):
